@@ -150,7 +150,9 @@ MonAnswer(p, m, e) ==
 
 MonOut(p, m, e) ==
   IF m.conn = "over" THEN Fail(m, "P5", "output after the end of the stream")
-  ELSE IF m.conn = "closeSent" THEN (IF e.t = "none" THEN [m EXCEPT !.conn = "over"] ELSE Fail(m, "P5", "output after a close frame"))
+  ELSE IF m.conn = "closeSent" THEN (IF e.t = "none" THEN [m EXCEPT !.conn = "over"]
+                                     ELSE IF e.t = "pending" THEN m      \* nothing was sent
+                                     ELSE Fail(m, "P5", "message after a close frame"))
   ELSE IF m.conn = "errorSent" THEN (IF e.t = "none" THEN [m EXCEPT !.conn = "over"] ELSE Fail(m, "P4", "connection_error not followed by closing"))
   ELSE IF m.expect \in Violations THEN MonAnswer(p, m, e)
   ELSE IF m.expect = "Terminate" THEN
